@@ -8,9 +8,9 @@
 (***************************************************************************)
 EXTENDS Expr, Json, IOUtils
 
-Traces == JsonDeserialize(IOEnv.TRACE_FILE)
+(* the harness writes one file of traces per block so that blocks are read in parallel *)
+BlockTraces(b) == JsonDeserialize(IOEnv.TRACE_DIR \o "/b" \o ToString(b) \o ".json")
 NB == 64
-N == Len(Traces)
 
 EnvOf(r) == r.env
 HasBothOps(t) == LET RECURSIVE Ops(_)
@@ -31,13 +31,13 @@ Verdict(r) ==
   ELSE IF ~Equivalent(r.env, r.tree, r.post) THEN "complement"
   ELSE "ok"
 
-Block(b) == { i \in 1..N : i % NB = b % NB }
 BlockVerdict(b) ==
-  LET ids == Block(b)
-      bad == { i \in ids : Verdict(Traces[i]) # "ok" }
-  IN [block |-> b, n |-> Cardinality(ids),
-      nontrivial |-> Cardinality({ i \in ids : NonTrivial(Traces[i]) }),
-      bad |-> { <<Traces[i].tid, Verdict(Traces[i])>> : i \in bad }]
+  LET tr == BlockTraces(b)
+      vd == TLCEval([i \in 1..Len(tr) |-> Verdict(tr[i])])
+      bad == { i \in 1..Len(tr) : vd[i] # "ok" }
+  IN [block |-> b, n |-> Len(tr),
+      nontrivial |-> Cardinality({ i \in 1..Len(tr) : NonTrivial(tr[i]) }),
+      bad |-> { <<tr[i].tid, vd[i]>> : i \in bad }]
 
 VARIABLE blk
 Init == blk = 0
